@@ -26,6 +26,10 @@ LIB = ("let traceid = 1;\nlet val = 7;\nlet mk = func (x) => {v = x, s = \"s\"};
 
 
 LIBNAME = "lib/shared.ucg"
+# a test file on disk: start-up indexing leaves *_test.ucg files out, the editor can still open and close them
+TESTNAME = "helper_test.ucg"
+TEST_TEXT = "let in_test_file = 1;\nlet tcfg = {n = 1};\n"
+TEST_VARIANTS = [TEST_TEXT, TEST_TEXT.replace("= 1;", "= \"one\";", 1), "let in_test_file = ;\n", TEST_TEXT + "assert {ok = true, desc = \"d\"};\n"]
 LIB_VARIANTS = [LIB, LIB.replace("let val = 7;", "let val = \"seven\";"), LIB.replace("port = 80", "prt = 80"), "let val = ;\n", "",
                 LIB.replace("let mk = func (x)", "let mk = func (x, y)"), LIB + "let extra = 1;\n", "let traceid = 1;\nlet val = 7;\n",
                 # the same bindings far down and far to the right: a position of this file is outside most documents that import it
@@ -79,6 +83,9 @@ def import_binding_text(r):
 def rand_text(r, probe):
     if r.random() < 0.08:
         return nonascii_before_fault(r)
+    if r.random() < 0.05:
+        return r.choice(["let h = import \"helper_test.ucg\";\nlet x = h.in_test_file + \"s\";\n", "let h = import \"helper_test.ucg\";\nlet y = h.in_test_file + 1;\nlet z = h.tcfg.n;\n",
+                         "let h = import \"helper_test.ucg\";\nlet lib = import \"lib/shared.ucg\";\nlet w = h.tcfg.n + lib.val;\nlet bad = h.nope;\n"])
     if r.random() < 0.08:
         return import_binding_text(r)
     x = r.random()
@@ -296,6 +303,7 @@ def run_session(r, probe, res, sid):
         os.makedirs(tp.path("home"))
         open(os.path.join(root, "lib", "shared.ucg"), "w").write(LIB)
         open(os.path.join(root, "ondisk.ucg"), "w").write("let disk = 1;\nlet other = {a = disk};\n")
+        open(os.path.join(root, TESTNAME), "w").write(TEST_TEXT)
         names = ["doc%d.ucg" % i for i in range(r.randint(1, 3))]
         script = []
         if r.random() < 0.3:
@@ -316,19 +324,20 @@ def run_session(r, probe, res, sid):
         for k in range(nmsg):
             if r.random() < 0.12:
                 # the on-disk library the documents import is opened / edited (also into a broken text) / closed in the editor
-                uri = uri_of(root, LIBNAME)
+                oname, variants = (LIBNAME, LIB_VARIANTS) if r.random() < 0.7 else (TESTNAME, TEST_VARIANTS)
+                uri = uri_of(root, oname)
                 if docs.get(uri) is None:
-                    text = r.choice(LIB_VARIANTS)
-                    script.append(["didOpen", LIBNAME, text])
+                    text = r.choice(variants)
+                    script.append(["didOpen", oname, text])
                     client.notify("textDocument/didOpen", {"textDocument": {"uri": uri, "languageId": "ucg", "version": 1, "text": text}})
                     docs[uri] = text
                 elif r.random() < 0.6:
-                    text = r.choice(LIB_VARIANTS)
-                    script.append(["didChange", LIBNAME, text])
+                    text = r.choice(variants)
+                    script.append(["didChange", oname, text])
                     client.notify("textDocument/didChange", {"textDocument": {"uri": uri, "version": k + 2}, "contentChanges": [{"text": text}]})
                     docs[uri] = text
                 else:
-                    script.append(["didClose", LIBNAME])
+                    script.append(["didClose", oname])
                     client.notify("textDocument/didClose", {"textDocument": {"uri": uri}})
                     docs[uri] = None
                 res.count("library-edit-events")
@@ -382,7 +391,7 @@ def run_session(r, probe, res, sid):
         if not failed and r.random() < 0.3:
             # sweep: every character position of the lines of one open document (bounded), completion / hover / definition in turn.
             # Positions that fall inside multi-byte characters (in either unit) only turn up this way.
-            open_docs = [(u, t) for u, t in docs.items() if t is not None and u != uri_of(root, LIBNAME)]
+            open_docs = [(u, t) for u, t in docs.items() if t is not None and u not in (uri_of(root, LIBNAME), uri_of(root, TESTNAME))]
             if open_docs:
                 suri, stext = r.choice(open_docs)
                 sname = os.path.relpath(suri[7:], root)
@@ -425,14 +434,15 @@ def run_session(r, probe, res, sid):
                         script.append(["didChange", os.path.relpath(u[7:], root), t])
                         client.notify("textDocument/didChange", {"textDocument": {"uri": u, "version": 999}, "contentChanges": [{"text": t}]})
                 res.count("sessions-with-session-document-imports")
-        if not failed and any(sc[1] == LIBNAME for sc in script):
+        if not failed and any(sc[1] in (LIBNAME, TESTNAME) for sc in script):
             # the editor overlay of the library goes away: from here on only the disk counts again.  Every open document
             # is then touched (same text, new version) so that its diagnostics are recomputed after the close.
-            luri = uri_of(root, LIBNAME)
-            if docs.get(luri) is not None:
-                script.append(["didClose", LIBNAME])
-                client.notify("textDocument/didClose", {"textDocument": {"uri": luri}})
-                docs[luri] = None
+            for oname in (LIBNAME, TESTNAME):
+                luri = uri_of(root, oname)
+                if docs.get(luri) is not None:
+                    script.append(["didClose", oname])
+                    client.notify("textDocument/didClose", {"textDocument": {"uri": luri}})
+                    docs[luri] = None
             for uri, text in list(docs.items()):
                 if text is not None:
                     docs[uri] = text
@@ -560,6 +570,7 @@ def replay_script(script):
         os.makedirs(tp.path("home"))
         open(os.path.join(root, "lib", "shared.ucg"), "w").write(LIB)
         open(os.path.join(root, "ondisk.ucg"), "w").write("let disk = 1;\nlet other = {a = disk};\n")
+        open(os.path.join(root, TESTNAME), "w").write(TEST_TEXT)
         for s in script:
             if s[0] == "disk":
                 open(os.path.join(root, s[1]), "w").write(s[2])
